@@ -344,3 +344,194 @@ Check C07_units_roundtrip_orig_refuted :
         [labels_unambiguous] uses the even-odd region; the two coincide when the signed crossing number
         stays within {-1,0,1} (Geom/Contains_proofs.v [in_region_nz_iff]), which holds for simple
         polygons by the Jordan curve theorem -- not proved here. *)
+
+(** * (12) ABSTRACT VIEWS (closes gap (a) above; proofs in Raw/RawGdsAbstract_proofs.v, specification in
+    Raw/RawGdsAbstractSpec.v).
+    What the code does (gds.rs `export_cell`, `export_abstract`, `export_abstract_port`): a cell with a layout is
+    exported by its layout, whether or not it also has an abstract; a cell with only an abstract is exported as
+    a struct holding the outline as a boundary on (32767, 32767), then per port, per layer (ascending key), per
+    shape: the shape on the layer's Drawing number, the shape on its Pin number, and one label carrying the
+    port's net; blockages are not written.  GDSII has no abstract view, so such a cell comes back as a LAYOUT
+    cell; what can be "unchanged" is its content: [abstract_image] (the outline, then every port shape twice,
+    on Drawing and on Pin, both carrying the net), compared as content ([layout_content_equiv]: layer and
+    purpose NUMBERS, shapes modulo representation, nets lower-cased, in order). *)
+From L21 Require Import Raw.RawGdsAbstractSpec Raw.RawGdsExportCheck Raw.RawGdsAbstractCheck Raw.RawGdsAbstract_proofs.
+
+(** The whole round trip for libraries that MIX layout cells and abstract-only cells.  Input space:
+    [exportable] (which already constrains abstracts: the abstract carries the cell's name, non-empty outline in
+    i32, ASCII port nets, every port layer with Drawing, Pin and Label numbers, port shapes in range with a label
+    location) plus [outline_slot_okb] (vacuous unless the table has a layer numbered 32767 without purpose number
+    32767; then that layer must satisfy the check of `Layer::add_purpose`, as every table built through the API
+    does).  Conclusion: the export succeeds, the importer model (any variant with the repaired
+    [Polygon::contains] and the Pico row) imports the result, the library is [raw_equiv] to the source -- for an
+    abstract-only cell [raw_equiv] compares with [abstract_view], the view of [abstract_image] --, the layer
+    table is the source's, grown by the outline slot exactly when an abstract-only cell was exported
+    ([table_after]), and every abstract-only cell comes back as a cell WITHOUT abstract whose layout is, as
+    content, [abstract_image] of its abstract. *)
+Theorem C07_roundtrip_abstract :
+  forall c L,
+    RG.fx_contains c = true -> RG.fx_pico c = true ->
+    exportable_abs L -> labels_unambiguous_nz_at label_of L ->
+    exists g L', export_lib L = Ok g /\ RG.import_lib c (lib_layers L) g = RG.IOk L' /\ raw_equiv L L' /\
+      lib_layers L' = table_after L /\
+      (forall c0 a, In c0 (lib_cells L) -> abstract_only c0 = Some a ->
+         exists c' l', In c' (lib_cells L') /\ c_name c' = c_name c0 /\ c_abs c' = None /\ c_layout c' = Some l' /\
+                       layout_content_equiv (lib_layers L') (lib_cells L') (abstract_image (lib_layers L) a) l').
+Proof.
+  intros c L Hc Hp Hex Hun.
+  assert (Hex0 : exportable L) by (unfold exportable_abs, exportable_absb in Hex; apply andb_prop in Hex as [H _]; exact H).
+  destruct (export_no_panic L Hex0) as [g Hg].
+  destruct (roundtrip_abstract c L g Hc Hp Hex Hun Hg) as [L' [H1 [H2 [H3 H4]]]].
+  exists g, L'. split; [exact Hg|]. split; [exact H1|]. split; [exact H2|]. split; [exact H3|exact H4].
+Qed.
+
+(** The layer table "grows only by the outline layer": [table_after L] is the source's table when every cell
+    has a layout; otherwise it is [outline_table], which is the table itself when (32767, 32767) is already
+    registered, the table with [outline_layer] = layer 32767 {32767 -> Other(32767)} appended when no layer is
+    numbered 32767, and else the table whose layer numbered 32767 received the purpose Other(32767). *)
+Theorem C07_table_after_layouts : forall L, all_layouts L -> table_after L = lib_layers L.
+Proof. exact table_after_all_layouts. Qed.
+Theorem C07_outline_table :
+  forall ly,
+    (ly_keynum ly outline_num = None /\ outline_table ly = ly ++ [outline_layer]) \/
+    (exists k l, ly_keynum ly outline_num = Some k /\ nth_error ly k = Some l /\
+                 ((exists p, layer_purpose l outline_num = Some p /\ outline_table ly = ly) \/
+                  (layer_purpose l outline_num = None /\
+                   outline_table ly = list_set ly k (mklayer (l_num l) (l_name l) (l_pairs l ++ [(outline_num, Other outline_num)]))))).
+Proof. exact outline_table_cases. Qed.
+
+(** [abstract_image] agrees with the specification [raw_equiv] already carried for abstract-only cells: its
+    elements, viewed as numbers over [outline_table], are [abstract_view]. *)
+Theorem C07_abstract_image_is_view :
+  forall ly a av, layers_okb ly = true -> outline_slot_okb ly = true -> abstract_view ly a = Some av ->
+    all_some (map (elem_view (outline_table ly)) (lay_elems (abstract_image ly a))) = Some av.
+Proof. exact abstract_image_view_spec. Qed.
+
+(** Model level: an abstract is exported exactly like the layout [abs_pre] (outline; per port shape the shape on
+    Drawing without net, the shape on Pin with the port's net). *)
+Theorem C07_abstract_exported_as_layout :
+  forall ly cells a s, layers_okb ly = true -> outline_slot_okb ly = true ->
+    export_abstract xcfg_fixed ly a = Ok s ->
+    export_layout xcfg_fixed (outline_table ly) cells (abs_pre (outline_key ly) (outline_purpose ly) a) = Ok s.
+Proof. exact export_abstract_as_layout. Qed.
+
+(** Information the format mapping loses (not defects): blockages are not written; the abstract of a cell that
+    also has a layout is not written. *)
+Theorem C07_abstract_blockages_not_exported :
+  forall cfg ly n o p b b', export_abstract cfg ly (mkabstract n o p b) = export_abstract cfg ly (mkabstract n o p b').
+Proof. exact blockages_not_exported. Qed.
+Theorem C07_both_views_layout_exported :
+  forall cfg ly cells n a a' l, export_cell cfg ly cells (mkcell n a (Some l)) = export_cell cfg ly cells (mkcell n a' (Some l)).
+Proof. exact both_views_layout_wins. Qed.
+
+(** Where the export of an abstract fails (inputs outside [exportable]; the model agrees with the code on them
+    in the correspondence run): an outline without points panics (`abs.outline.points[0]`); a port with an
+    entry -- even one without shapes -- on a layer lacking a Drawing, Pin or Label number is never exported. *)
+Theorem C07_abstract_empty_outline_panics :
+  forall cfg ly a, ab_outline a = [] -> export_abstract cfg ly a = Panic.
+Proof. exact empty_outline_panics. Qed.
+Theorem C07_abstract_port_needs_purposes :
+  forall cfg ly a p e, In p (ab_ports a) -> In e (ap_shapes p) ->
+    resolves ly (fst e) Drawing && resolves ly (fst e) Pin && resolves ly (fst e) Label = false ->
+    forall s, export_abstract cfg ly a <> Ok s.
+Proof. exact port_needs_purposes. Qed.
+Theorem C07_abstract_port_needs_purposes_err :
+  forall ly n o e net, o <> [] -> forallb point_i32b o = true ->
+    resolves ly (fst e) Drawing && resolves ly (fst e) Pin && resolves ly (fst e) Label = false ->
+    exists x, export_abstract xcfg_fixed ly (mkabstract n o [mkabsport net [e]] []) = Err x.
+Proof. exact port_needs_purposes_err. Qed.
+
+(** The executable oracle of the correspondence run for abstract-only cells implies the specification. *)
+Theorem C07_abstract_checker_sound :
+  forall L L', abstract_cells_okb L L' = true ->
+    forall c0 a, In c0 (lib_cells L) -> abstract_only c0 = Some a ->
+      exists c' l', In c' (lib_cells L') /\ c_name c' = c_name c0 /\ c_abs c' = None /\ c_layout c' = Some l' /\
+                    layout_content_equiv (lib_layers L') (lib_cells L') (abstract_image (lib_layers L) a) l'.
+Proof. exact abstract_cells_okb_sound. Qed.
+
+(** Non-vacuity: an abstract-only cell "macro" (two ports; "VDD" on two layers listed in descending key order:
+    a U-shaped polygon whose bounding-box centre is outside, a rectangle with swapped corners, an open Manhattan
+    path of odd width; a blockage), a layout cell "top" instantiating it (reflected, rotated), and a cell "both"
+    with both views.  The hypotheses of [C07_roundtrip_abstract] hold; the model exports it, the importer model
+    imports it, and the result satisfies the conclusion (by computation): the table has grown by
+    [outline_layer], "macro" came back as a layout of 1 + 2*4 elements, "both" by its layout. *)
+Definition exa_layers : layers :=
+  [mklayer 5 None [(0, Drawing); (1, Label); (2, Pin)]; mklayer 7 (Some "m2"%string) [(3, Label); (4, Drawing); (9, Pin)]].
+Definition exa_U : shape :=
+  Polygon [mkpt 50 0; mkpt 50 10; mkpt 52 10; mkpt 52 2; mkpt 58 2; mkpt 58 10; mkpt 60 10; mkpt 60 0].
+Definition exa_abs : abstract :=
+  mkabstract "macro" [mkpt 0 0; mkpt 70 0; mkpt 70 30; mkpt 0 30]
+    [mkabsport "VDD" [(1%nat, [exa_U]); (0%nat, [Rect (mkpt 10 6) (mkpt 2 2); Path [mkpt 20 5; mkpt 30 5; mkpt 30 15] 3])];
+     mkabsport "a" [(0%nat, [Rect (mkpt 40 20) (mkpt 44 28)])]]
+    [(0%nat, [Rect (mkpt 0 0) (mkpt 70 1)])].
+Definition exa_lib : library :=
+  mklib "lib" Nano exa_layers
+    [mkcell "macro" (Some exa_abs) None;
+     mkcell "top" None (Some (mklayout "top"
+       [mkinst "i0" 0 (mkpt 100 (-50)) true (Some 4636033603912859648)]
+       [mkelem (Some "Net"%string) 0 Drawing (Rect (mkpt 0 0) (mkpt 5 5))] []));
+     mkcell "both" (Some exa_abs) (Some (mklayout "both" [] [mkelem None 1 Drawing (Rect (mkpt 1 1) (mkpt 2 3))] []))].
+Definition exa_gds : GdsData.library :=
+  Eval vm_compute in match export_lib exa_lib with Ok g => g | _ => GdsData.mkLib [] 0 zero_dates (0, 0) [] end.
+Definition exa_back : library :=
+  Eval vm_compute in match RG.import_lib RG.cfg_fixed (lib_layers exa_lib) exa_gds with RG.IOk L' => L' | _ => exa_lib end.
+
+Example C07_roundtrip_abstract_nonvacuous :
+  exportable_abs exa_lib /\ labels_unambiguous_nz_at label_of exa_lib /\
+  export_lib exa_lib = Ok exa_gds /\ RG.import_lib RG.cfg_fixed (lib_layers exa_lib) exa_gds = RG.IOk exa_back /\
+  raw_equivb exa_lib exa_back = true /\ abstract_cells_okb exa_lib exa_back = true /\
+  lib_layers exa_back = exa_layers ++ [outline_layer] /\ table_after exa_lib = exa_layers ++ [outline_layer] /\
+  List.length (GdsData.l_structs exa_gds) = 3%nat /\
+  option_map (fun l => List.length (lay_elems l)) (match lib_cells exa_back with c0 :: _ => c_layout c0 | [] => None end) = Some 9%nat /\
+  c07_abstract_check exa_lib (GOk exa_gds) (ROk exa_back) = 0.
+Proof.
+  split; [vm_compute; reflexivity|].
+  split; [apply labels_unambiguous_nz_atb_sound; vm_compute; reflexivity|].
+  repeat split; vm_compute; reflexivity.
+Qed.
+
+(** outside the input space: the same abstract without outline points panics in the model (and in the code:
+    directed case of the correspondence run); a port on a layer without Pin number is an error *)
+Example C07_abstract_failures :
+  export_lib (mklib "lib" Nano exa_layers [mkcell "m" (Some (mkabstract "m" [] [] [])) None]) = Panic /\
+  export_lib (mklib "lib" Nano [mklayer 5 None [(0, Drawing); (1, Label)]]
+                    [mkcell "m" (Some (mkabstract "m" [mkpt 0 0; mkpt 4 0; mkpt 4 4] [mkabsport "p" [(0%nat, [])]] [])) None]) = Err XPurpose.
+Proof. split; vm_compute; reflexivity. Qed.
+
+Print Assumptions C07_roundtrip_abstract.
+Print Assumptions C07_table_after_layouts.
+Print Assumptions C07_outline_table.
+Print Assumptions C07_abstract_image_is_view.
+Print Assumptions C07_abstract_exported_as_layout.
+Print Assumptions C07_abstract_blockages_not_exported.
+Print Assumptions C07_both_views_layout_exported.
+Print Assumptions C07_abstract_empty_outline_panics.
+Print Assumptions C07_abstract_port_needs_purposes.
+Print Assumptions C07_abstract_port_needs_purposes_err.
+Print Assumptions C07_abstract_checker_sound.
+
+Check C07_roundtrip_abstract :
+  forall c L, RG.fx_contains c = true -> RG.fx_pico c = true ->
+    exportable_abs L -> labels_unambiguous_nz_at label_of L ->
+    exists g L', export_lib L = Ok g /\ RG.import_lib c (lib_layers L) g = RG.IOk L' /\ raw_equiv L L' /\
+      lib_layers L' = table_after L /\
+      (forall c0 a, In c0 (lib_cells L) -> abstract_only c0 = Some a ->
+         exists c' l', In c' (lib_cells L') /\ c_name c' = c_name c0 /\ c_abs c' = None /\ c_layout c' = Some l' /\
+                       layout_content_equiv (lib_layers L') (lib_cells L') (abstract_image (lib_layers L) a) l').
+Check C07_abstract_image_is_view :
+  forall ly a av, layers_okb ly = true -> outline_slot_okb ly = true -> abstract_view ly a = Some av ->
+    all_some (map (elem_view (outline_table ly)) (lay_elems (abstract_image ly a))) = Some av.
+Check C07_abstract_empty_outline_panics : forall cfg ly a, ab_outline a = [] -> export_abstract cfg ly a = Panic.
+Check C07_abstract_port_needs_purposes :
+  forall cfg ly a p e, In p (ab_ports a) -> In e (ap_shapes p) ->
+    resolves ly (fst e) Drawing && resolves ly (fst e) Pin && resolves ly (fst e) Label = false ->
+    forall s, export_abstract cfg ly a <> Ok s.
+Check C07_abstract_checker_sound :
+  forall L L', abstract_cells_okb L L' = true ->
+    forall c0 a, In c0 (lib_cells L) -> abstract_only c0 = Some a ->
+      exists c' l', In c' (lib_cells L') /\ c_name c' = c_name c0 /\ c_abs c' = None /\ c_layout c' = Some l' /\
+                    layout_content_equiv (lib_layers L') (lib_cells L') (abstract_image (lib_layers L) a) l'.
+
+(** What is still missing for [C07_roundtrip_full] after (12): gap (a) above is CLOSED by [C07_roundtrip_abstract]
+    (with the side condition [outline_slot_okb] on a table that already has a layer numbered 32767); gap (b)
+    (even-odd vs non-zero-winding region for polygons) remains as stated. *)
